@@ -209,6 +209,9 @@ pub fn run_c03(ctx: &mut Ctx) {
         ctx.evals += 1;
         ctx.count(src.name());
         let z = classify_locale(b);
+        // the judged call comes first: it must be the first library call on this input, otherwise a
+        // statistics-only parse would absorb state left behind by the previous input
+        ctx.judge_bytes(b, &mut |c| c03_check(c));
         let r = guard(|| Locale::from_bytes(b));
         let key: &'static str = match (z.name(), outcome_name(&r)) {
             ("must_accept", "ok") => "zone:must_accept/ok",
@@ -237,7 +240,6 @@ pub fn run_c03(ctx: &mut Ctx) {
         if ctx.wants_sample(&cat) && refspec::n_subtags(b) >= 2 {
             ctx.sample(&cat, || json!({"input": lossy(b), "zone": z.name(), "reason": z.reason(), "library": outcome_name(&r)}));
         }
-        ctx.judge_bytes(b, &mut |c| c03_check(c));
     });
     // G-struct with by-construction expectations (guards the oracle as well as the library)
     let n = if ctx.quick() { 200_000u64 } else { 10_000_000 } / ctx.nshards as u64;
@@ -347,6 +349,9 @@ pub fn run_c13(ctx: &mut Ctx) {
     byte_stream(ctx, &cfg, &mut |ctx, b, src| {
         ctx.evals += 1;
         ctx.count(src.name());
+        // the judged call comes first: it must be the first library call on this input, otherwise a
+        // statistics-only parse would absorb state left behind by the previous input
+        ctx.judge_bytes(b, &mut |c| c13_check(c));
         let a = guard(|| LanguageIdentifier::from_bytes(b));
         let c = guard(|| Locale::from_bytes(b));
         let key: &'static str = match (outcome_name(&a), outcome_name(&c)) {
@@ -363,7 +368,6 @@ pub fn run_c13(ctx: &mut Ctx) {
         if ctx.wants_sample(key) && refspec::n_subtags(b) >= 2 {
             ctx.sample(key, || json!({"input": lossy(b), "outcomes": key}));
         }
-        ctx.judge_bytes(b, &mut |c| c13_check(c));
     });
 }
 
@@ -819,13 +823,14 @@ pub fn run_c09(ctx: &mut Ctx) {
                 continue;
             }
             ctx.evals += 1;
+            // judged call first (see run_c03)
+            let tg = tagged.clone();
+            ctx.judge_bytes(&tg, &mut |c| c09_check_masks(c));
             let ok = Locale::from_bytes(b).is_ok();
             ctx.count(if ok { "pair:both-expected-ok" } else { "pair:both-expected-err" });
             if refspec::n_subtags(b) >= 2 {
                 ctx.sig(refspec::class_seq_hash(9, b, (mode as u64) << 1 | ok as u64));
             }
-            let tg = tagged.clone();
-            ctx.judge_bytes(&tg, &mut |c| c09_check_masks(c));
         }
     });
     let n = if quick { 300_000u64 } else { 10_000_000 } / ctx.nshards as u64;
@@ -837,13 +842,13 @@ pub fn run_c09(ctx: &mut Ctx) {
             mon::begin_case(&a);
             ctx.evals += 1;
             ctx.count(label);
+            let fails = c09_check_pair(label, &a, &b);
             let ok = Locale::from_bytes(&a).is_ok();
             ctx.count(if ok { "pair:both-expected-ok" } else { "pair:both-expected-err" });
             ctx.sig(refspec::class_seq_hash(mon::SigH::new(0).b(label.as_bytes()).fin(), &a, ok as u64));
             if ctx.wants_sample(label) {
                 ctx.sample(label, || json!({"transformation": label, "a": lossy(&a), "b": lossy(&b), "both_parse": ok}));
             }
-            let fails = c09_check_pair(label, &a, &b);
             for f in fails {
                 ctx.viol_total += 1;
                 ctx.count_dyn(&format!("violation:{}", f.clause));
